@@ -260,6 +260,43 @@ func exec(line string) zv.Out {
 		})
 		want = refExporter13(suite, master, msgs, label, ctx, n)
 		tags = append(tags, fmt.Sprintf("suite=%04x", suite), lenTag("n", n), lenTag("label", len(label)), "res="+strings.Fields(want)[0])
+	case "suitebyid", "mutual":
+		// the lookup the handshakes go through (mutualCipherSuite -> cipherSuiteByID over implementedCipherSuites)
+		show := func(r tls.ZV26Suite, ok bool) string {
+			if !ok {
+				return "nil"
+			}
+			return fmt.Sprintf("%d,%d,%d,%d,%d", r.ID, r.MacLen, r.KeyLen, r.IVLen, r.Flags)
+		}
+		var id uint16
+		if op == "suitebyid" {
+			id = uint16(atoi(f[2]))
+			got = show(tls.ZVCipherSuiteByID(id))
+		} else {
+			var have []uint16
+			if f[2] != "-" {
+				for _, x := range strings.Split(f[2], ",") {
+					have = append(have, uint16(atoi(x)))
+				}
+			}
+			id = uint16(atoi(f[3]))
+			got = show(tls.ZVMutualCipherSuite(have, id))
+			tags = append(tags, fmt.Sprintf("offered=%v", got != "nil"))
+		}
+		// T3: whatever row comes back carries the RFC's key-block lengths and PRF hash for that id
+		if got != "nil" {
+			var gid, mac, key, iv, flags int
+			fmt.Sscanf(got, "%d,%d,%d,%d,%d", &gid, &mac, &key, &iv, &flags)
+			rm, rk, ri, known := refSuiteLens(id)
+			_, is384 := sha384Suites[id]
+			if gid != int(id) || !known || mac != rm || key != rk || iv != ri || (flags&tls.ZVSuiteSHA384Bit() != 0) != is384 {
+				return zv.Out{Go: got, Viol: fmt.Sprintf("%s %04x: zcrypto's suite row is %s, the RFCs give mac/key/iv %d/%d/%d sha384=%v", op, id, got, rm, rk, ri, is384), Tags: tags}
+			}
+			tags = append(tags, "row=found")
+		} else {
+			tags = append(tags, "row=nil")
+		}
+		return zv.Out{Go: got, Tags: tags}
 	case "keyssuite":
 		version, suite := uint16(atoi(f[2])), uint16(atoi(f[3]))
 		ms, cr, sr := zv.UnHex(f[4]), zv.UnHex(f[5]), zv.UnHex(f[6])
